@@ -38,9 +38,99 @@ def child(prop, n, seed):
     json.dump(_digests(mod, n, seed, reverse=True), sys.stdout)
 
 
+def sched_unit_tests():
+    """The scheduler's own semantics: mutual exclusion of SimLock, detection of
+    a lock-order deadlock, and exact replay of a recorded schedule."""
+    import random
+    from . import sched
+    import spyne.util.memo as target     # any spyne module: its lines are steps
+    bad = 0
+
+    # a function whose code lives in a spyne file, so that its lines are
+    # pre-emption points: memoize.get_key is called in a loop
+    m = target.memoize(lambda *a: a)
+
+    def spin(k):
+        for _ in range(k):
+            m.get_key((1,), {})
+
+    # 1. mutual exclusion + lost update without the lock
+    for use_lock in (True, False):
+        lost = 0
+        for seed in range(40):
+            lock = sched.SimLock(False, 'L')
+            box = {'n': 0}
+
+            def body():
+                for _ in range(3):
+                    if use_lock:
+                        lock.acquire()
+                    v = box['n']
+                    spin(2)
+                    box['n'] = v + 1
+                    if use_lock:
+                        lock.release()
+            s = sched.Scheduler(3, {'rng': random.Random(seed),
+                                    'pct': [3, 9, 17, 30], 'p': 0.0})
+            s.run([body, body, body])
+            if s.aborted or box['n'] != 9:
+                lost += 1
+        if use_lock and lost:
+            print('sched selftest: SimLock failed to exclude (%d/40)' % lost)
+            bad += 1
+        if not use_lock and not lost:
+            print('sched selftest: no lost update found without a lock')
+            bad += 1
+
+    # 2. lock-order inversion is reported as a deadlock for some schedule
+    dead = 0
+    for seed in range(60):
+        a, b = sched.SimLock(False, 'A'), sched.SimLock(False, 'B')
+
+        def t1():
+            a.acquire(); spin(3); b.acquire(); b.release(); a.release()
+
+        def t2():
+            b.acquire(); spin(3); a.acquire(); a.release(); b.release()
+        s = sched.Scheduler(2, {'rng': random.Random(seed),
+                                'pct': [1 + seed % 3], 'p': 0.0})
+        s.run([t1, t2])
+        if s.aborted and s.aborted.startswith('deadlock'):
+            dead += 1
+    if not dead:
+        print('sched selftest: lock-order inversion never reported')
+        bad += 1
+
+    # 3. a recorded schedule replays to the same decisions
+    out = []
+
+    def mk(i):
+        def body():
+            for k in range(4):
+                spin(2)
+                out.append(i)
+        return body
+    s1 = sched.Scheduler(3, {'rng': random.Random(7), 'pct': [5, 11, 23, 31],
+                             'p': 0.0})
+    s1.run([mk(0), mk(1), mk(2)])
+    first = list(out)
+    del out[:]
+    s2 = sched.Scheduler(3, {'replay': [d[:3] for d in s1.decisions],
+                             'forced': list(s1.forced_log)})
+    s2.run([mk(0), mk(1), mk(2)])
+    if first != out or s1.step != s2.step:
+        print('sched selftest: replay diverged: %r vs %r' % (first, out))
+        bad += 1
+    print('selftest scheduler: mutual exclusion ok, lost update found without '
+          'lock, deadlock reported in %d/60 schedules, replay %s' % (dead,
+          'identical' if first == out else 'DIVERGED'))
+    return bad
+
+
 def main(n):
     import_errors = 0
     bad = 0
+    bad += sched_unit_tests()
     seed = int(os.environ.get('VERIF_SEED', '0') or 0)
     for prop in PROPS:
         try:
